@@ -28,16 +28,19 @@ def main():
     alts = []
     if '--alts' in sys.argv:
         alts = sys.argv[sys.argv.index('--alts') + 1].split(',')
-    src = os.path.join(MUT, pid, m)
+    tag = ''
+    if '--tag' in sys.argv:
+        tag = sys.argv[sys.argv.index('--tag') + 1]
+    src = os.path.join(MUT, (tag + '_' if tag else '') + pid, m)
     patch = os.path.join(src, 'patch_ported.diff')
     ported = os.path.exists(patch)
     if not ported:
         patch = os.path.join(src, 'patch.diff')
-    wt = '/tmp/sw/%s_%s' % (pid, m)
+    wt = '/tmp/sw/%s%s_%s' % (tag, pid, m)
     os.makedirs('/tmp/sw', exist_ok=True)
     sh('git -C /repo worktree remove --force %s' % wt)
     rc, out = sh('git -C /repo worktree add --detach %s HEAD' % wt)
-    meta = {'property': pid, 'mutant': m, 'ported_to_current_head': ported,
+    meta = {'property': pid, 'mutant': (tag + '-' if tag else '') + m, 'ported_to_current_head': ported,
             'repo_head': sh('git -C /repo rev-parse --short HEAD')[1].strip()}
     try:
         rc, out = sh('git apply %s' % patch, cwd=wt)
@@ -76,7 +79,7 @@ def main():
     meta['what_i_ran'] = ('scratch worktree of /repo HEAD: git apply patch; pinned pytest command (389 passed required); demo.py must '
                           'exit non-zero; git checkout; demo.py must exit 0; then patch applied to /repo, ./check <ID> --tier quick, reverted')
     if ok:
-        dst = os.path.join(VERIF, 'seeded', '%s-%s' % (pid, m))
+        dst = os.path.join(VERIF, 'seeded', '%s-%s%s' % (pid, (tag + '-') if tag else '', m))
         os.makedirs(dst, exist_ok=True)
         shutil.copy(patch, os.path.join(dst, 'patch.diff'))
         shutil.copy(os.path.join(src, 'demo.py'), os.path.join(dst, 'demo.py'))
